@@ -39,7 +39,7 @@ static volatile int ranges_ready;
 static int is_lib_name(const char *n)
 {
     if (!n) return 0;
-    return strstr(n, "liberasurecode") || strstr(n, "libXorcode") || strstr(n, "libnullcode") || strstr(n, "libisal") || strstr(n, "libshss");
+    return strstr(n, "liberasurecode") || strstr(n, "libXorcode") || strstr(n, "libnullcode") || strstr(n, "libisal") || strstr(n, "libshss") || strstr(n, "libJerasure") || strstr(n, "libphazr");
 }
 
 static int phdr_cb(struct dl_phdr_info *info, size_t size, void *data)
